@@ -828,9 +828,35 @@ func commandLoader(c *Ctx) *ssa.Function {
 		if pk := c.P.PkgOfFunc(fn); pk == nil || pk.PkgPath != dbPkg || fn.Parent() != nil {
 			continue
 		}
-		if len(callsTo(fn, "os.ReadFile")) > 0 && len(callsTo(fn, "gopkg.in/yaml.v3.Unmarshal")) > 0 {
+		if len(callsTo(fn, "os.ReadFile")) > 0 && (len(callsTo(fn, "gopkg.in/yaml.v3.Unmarshal")) > 0 || decodeHelperCall(c, fn) != nil) {
 			out = fn
 		}
+	}
+	return out
+}
+
+// decodeHelperCall: fn hands the bytes it read with os.ReadFile to a helper of
+// the repository that decodes them with yaml.Unmarshal and returns the list
+// and an error; that call.
+func decodeHelperCall(c *Ctx, fn *ssa.Function) *ssa.Call {
+	var out *ssa.Call
+	for _, rd := range callsTo(fn, "os.ReadFile") {
+		data := resultValue(rd, 0)
+		ssau.ForEachInstr(fn, false, func(in ssa.Instruction) {
+			call, ok := in.(*ssa.Call)
+			if !ok || out != nil {
+				return
+			}
+			g := call.Common().StaticCallee()
+			if g == nil || g.Blocks == nil || !c.P.IsRepoFunc(g) || errorIndex(g) < 0 || len(callsTo(g, "gopkg.in/yaml.v3.Unmarshal")) == 0 {
+				return
+			}
+			for _, a := range call.Common().Args {
+				if a == data {
+					out = call
+				}
+			}
+		})
 	}
 	return out
 }
